@@ -67,6 +67,21 @@ CHECKS["C12"] = dict(
     design_ref="DESIGN.md section 5, C12",
 )
 
+CHECKS["C06"] = dict(
+    engine=E1,
+    technique="explicit-state BFS over all interleavings of first copies, byte-identical duplicates and retention-timer expiries (incl. stale) of heartbeat/association/session requests from peers using equal sequence numbers, against a reference retained-request map",
+    text="Model checking of the implementation: on every transition a duplicate must cause no data-plane call and no state change and be answered with exactly one byte-identical copy of the original response (or nothing), a request differing in source or sequence number must be executed, and an expired entry must be released; timers are checked after stopping the server in every explored state.",
+    note=E1_NOTE + " Timer expiry is an injected event (real timers are configured far in the future and stopped by the harness before the expiry is posted through NotifyTransTimeout).",
+    design_ref="DESIGN.md section 5, C06",
+)
+CHECKS["C09"] = dict(
+    engine=E1,
+    technique="explicit-state BFS, per (MaxRetrans 0..3, transmit-counter position incl. 2^24-1, 2^24, 2^32-1), over all interleavings of report generation, retransmission-timer expiries (incl. stale) and matching / SEID-0 / wrong-peer / unknown-sequence / duplicated responses, against a reference table of outstanding requests",
+    text="Model checking of the implementation: wire sequence numbers stay below 2^24 and distinct among outstanding requests, each expiry yields one byte-identical retransmission up to the configured count and then abandonment, a response from the right peer retires the request, everything else is without effect, and the transaction table equals the reference after every transition.",
+    note=E1_NOTE + " The counter is positioned by the in-package harness.",
+    design_ref="DESIGN.md section 5, C09",
+)
+
 NOT_YET = "check not built yet (work in progress in this round; design in DESIGN.md section 5)"
 
 def main():
